@@ -74,7 +74,7 @@ def prior_point(ref):
     return [ref.lo[d] + (blo[d] + min(1, bhi[d] - blo[d]) + 0.5) * ref.dx[0][d] for d in range(3)]
 
 
-def query(mods, ref, fsel_expr, l, b, ctx, outside=None, canary=False, prior=None):
+def query(mods, ref, fsel_expr, l, b, ctx, outside=None, canary=False, prior=None, limit=None):
     PlotfileCooker = mods['amr_kitchen.plotfile_cooker'].PlotfileCooker
     fs = SymFS()
     ref.write_symfs(fs, '/work/plt')
@@ -82,13 +82,15 @@ def query(mods, ref, fsel_expr, l, b, ctx, outside=None, canary=False, prior=Non
     fsel = eval(fsel_expr)
     blo, bhi = ref.boxes[l][b]
     what = 'pck[%s](cell centre of level %d box %d)' % (fsel_expr, l, b)
+    if limit is not None:
+        what = 'PlotfileCooker(limit_level=%d)[%s](cell centre of level %d box %d)' % (limit, fsel_expr, l, b)
     if outside is None:
         idx = [core.integer('cell_%s' % 'ijk'[d]) for d in range(3)]
         for d in range(3):
             ctx.assume(idx[d].t >= 1)
             ctx.assume(idx[d].t <= bhi[d] - blo[d] - 1)
         # the finest level covering the point: not under a finer box
-        if l + 1 < ref.nlev:
+        if l + 1 < ref.nlev and limit != l:         # with the reader limited to this level, cells under finer boxes count too
             for (flo, fhi) in ref.boxes[l + 1]:
                 ctx.assume(z3.Not(z3.And(*[z3.And(blo[d] + idx[d].t >= flo[d] // 2, blo[d] + idx[d].t <= fhi[d] // 2) for d in range(3)])))
         if ctx.check() != 'sat':
@@ -98,7 +100,7 @@ def query(mods, ref, fsel_expr, l, b, ctx, outside=None, canary=False, prior=Non
         point = outside
         what = 'pck[%s](%s)' % (fsel_expr, outside)
     with patch.Patched(mods, fs, stubs={'amr_kitchen.plotfile_cooker': {'map_coordinates': map_coordinates_stub}}), common.quiet():
-        pck = PlotfileCooker('plt')
+        pck = PlotfileCooker('plt') if limit is None else PlotfileCooker('plt', limit_level=limit)
         try:
             sel = pck[fsel]
             if prior is not None:
@@ -199,6 +201,26 @@ def run_case(case):
                     sig = 'C19/history/level%s' % ('0' if l == 0 else '>0')
                     if sig not in viol:
                         viol[sig] = {'signature': sig, 'what': obl.failed[0][0][:300], 'fsel': fe, 'l': l, 'b': b, 'model': ctx.model(), 'prior': prior_point(ref)}
+    # a reader opened with a level limit below the plotfile's finest level: the finest SELECTED level answers
+    for l in range(ref.nlev - 1):
+        for b, (blo, bhi) in enumerate(ref.boxes[l]):
+            if any(bhi[d] - blo[d] + 1 < 3 for d in range(3)):
+                continue
+            fe = fsels[(l + b) % len(fsels)]
+
+            def lpath(ctx, fe=fe, l=l, b=b):
+                return query(mods, ref, fe, l, b, ctx, limit=l)
+            results, exhaustive, stats = core.explore(lpath, max_paths=400)
+            res.add_explore(results, exhaustive, stats)
+            n += stats['paths']
+            for ctx, obl in results:
+                if obl is None:
+                    continue
+                res.add_obl(obl)
+                if obl.failed and not ctx.flags:
+                    sig = 'C19/limited-reader/level%s' % ('0' if l == 0 else '>0')
+                    if sig not in viol:
+                        viol[sig] = {'signature': sig, 'what': obl.failed[0][0][:300], 'fsel': fe, 'l': l, 'b': b, 'model': ctx.model(), 'limit': l}
     # outside the domain: far away, and just beyond each of the six faces (a quarter of the finest cell; the other two
     # coordinates at an interior cell centre of the coarsest level)
     outside_pts = [[ref.lo[0] - 1.0, ref.lo[1] + ref.dx[0][1] / 2, ref.lo[2] + ref.dx[0][2] / 2], [ref.hi[0] + 0.5, ref.hi[1] + 0.5, ref.hi[2] + 0.5]]
@@ -274,7 +296,7 @@ def make_replay(ref, v):
         comps = [fsel] if isinstance(fsel, int) else ([ref.fields.index(fsel)] if isinstance(fsel, str) else
                  (list(range(ref.nf))[fsel] if isinstance(fsel, slice) else [ref.fields.index(f) if isinstance(f, str) else f for f in fsel]))
         case = {'property': 'C19', 'handler': 'c19', 'signature': v['signature'], 'what': v['what'], 'fsel': v['fsel'], 'point': point,
-                'expected': [float(data[l][b][cell + (c,)]) for c in comps], 'prior': v.get('prior')}
+                'expected': [float(data[l][b][cell + (c,)]) for c in comps], 'prior': v.get('prior'), 'limit': v.get('limit')}
     with open(os.path.join(d, 'case.json'), 'w') as f:
         json.dump(case, f, indent=1)
     common.write_replay_stub(d)
